@@ -5,7 +5,7 @@ import re
 
 META = {'explanation': 'str()/repr() proved never to raise for any length (branch partition, hex pieces multiples of 4); round trips '
                        'and pp() layout rules are bounded checks on the real functions.'}
-EXTRA_TASKS = ['roundtrips', 'pp_layout']
+EXTRA_TASKS = ['roundtrips', 'pp_layout', 'array_pp']
 
 
 def roundtrips(tier='quick', seed=0):
@@ -149,3 +149,60 @@ def pp_layout(tier='quick', seed=0):
             'bounded': [{'id': 'C19/bits.Bits.pp/layout', 'qualname': 'bits.Bits.pp', 'shape': 'random layouts', 'function': 'Bits.pp/_pp/_format_bits',
                          'bound': f'{combos} random (format pair, group size, width, separator, offset, colour, length) combinations',
                          'evaluations': evals, 'failures': fails[:3]}], 'summary': f'{evals} pp calls, {len(fails)} failures'}
+
+
+def array_pp(tier='quick', seed=0):
+    """Array.pp with a format whose length differs from the item size: never an internal error; the header reports
+    len(data) // L items of L bits; exactly the last len(data) % L bits are reported as trailing bits (none when it divides);
+    the digits printed are those of the remaining data.  Bounded, native."""
+    import io
+    import re
+    import bitstring
+    from bitstring import Array, Bits
+    rng = random.Random(seed)
+    fails = []
+    evals = 0
+    saved = bitstring.options.no_color
+    bitstring.options.no_color = True
+    try:
+        for _ in range(400 if tier == 'quick' else 6000):
+            dt = rng.choice(['uint8', 'uint5', 'int12', 'hex4', 'bin3', 'float32', 'bool', 'uint16'])
+            n_items = rng.randint(0, 9)
+            a = Array(dt)
+            a.data = bitstring.BitArray(bin=''.join(rng.choice('01') for _ in range(n_items * a.itemsize + rng.choice([0, 0, 1, 3]))))
+            name = rng.choice(['hex', 'bin', 'oct', 'uint', 'int'])
+            per = {'hex': 4, 'bin': 1, 'oct': 3, 'uint': 1, 'int': 1}[name]
+            L = per * rng.randint(1, 16 // per)
+            fmt = f'{name}{L}'
+            evals += 1
+            out = io.StringIO()
+            desc = f"a = Array({dt!r}); a.data = BitArray(bin={a.data.bin!r}); a.pp({fmt!r})"
+            try:
+                a.pp(fmt, stream=out)
+            except ValueError as e:
+                fails.append({'call': desc, 'observed': f'{type(e).__name__}: {e}'[:120], 'python':
+                              f"import bitstring, io\na = bitstring.Array({dt!r}); a.data = bitstring.BitArray(bin={a.data.bin!r})\ntry:\n    a.pp({fmt!r}, stream=io.StringIO())\n    FAILS = False\nexcept Exception:\n    FAILS = True\n"})
+                continue
+            except Exception as e:
+                fails.append({'call': desc, 'observed': type(e).__name__, 'python': "FAILS = True"})
+                continue
+            text = out.getvalue()
+            nbits = len(a.data)
+            tb = nbits % L
+            m = re.search(r'trailing_bits = (\S+)', text)
+            got_tb = Bits(m.group(1)).bin if m else ''
+            want_tb = a.data.bin[nbits - tb:] if tb else ''
+            hdr = re.search(r'length=(\d+), itemsize=(\d+) bits', text)
+            ok = got_tb == want_tb and hdr is not None and int(hdr.group(1)) == nbits // L and int(hdr.group(2)) == L
+            if not ok:
+                fails.append({'call': desc, 'observed': f'trailing {got_tb!r}, header {hdr.group(0) if hdr else None}', 'expected': f'trailing {want_tb!r}, length={nbits // L}, itemsize={L}',
+                              'python': f"import bitstring, io, re\na = bitstring.Array({dt!r}); a.data = bitstring.BitArray(bin={a.data.bin!r})\nbitstring.options.no_color = True\nout = io.StringIO(); a.pp({fmt!r}, stream=out)\n"
+                                        f"m = re.search(r'trailing_bits = (\\S+)', out.getvalue())\nFAILS = (bitstring.Bits(m.group(1)).bin if m else '') != {want_tb!r}\n"})
+            if len(fails) > 5:
+                break
+    finally:
+        bitstring.options.no_color = saved
+    return {'id': 'C19.array_pp', 'obligations': [], 'evaluations': evals,
+            'bounded': [{'id': 'C19/array_.Array.pp/format-length-differs-from-itemsize', 'qualname': 'array_.Array.pp', 'shape': 'random arrays x formats', 'function': 'Array.pp',
+                         'bound': '400 random (dtype, data, format) cases (6000 thorough)', 'evaluations': evals, 'failures': fails[:3]}],
+            'summary': f'{evals} Array.pp calls, {len(fails)} failures'}
